@@ -1,8 +1,10 @@
 """C04 — the encoder never silently emits a PDU that misrepresents its input; every rejection is an OdxError."""
 import contextlib
+import copy
 import io
 import json
 import logging
+import pickle
 import random
 
 import atomic_lib as A
@@ -14,11 +16,14 @@ from odxgen import sexp
 from odxgen import values as V
 
 ID = "C04"
-LEAN_TARGETS = ["OdxVerif.Props.C04", "OdxVerif.Props.C04Struct"]
+LEAN_TARGETS = ["OdxVerif.Props.C04", "OdxVerif.Props.C04Struct", "OdxVerif.Props.C04Nested"]
 DRIVERS = ["drv_codec"]
 P = "OdxVerif.Codec."
 THEOREMS = [P + t for t in ["C04_no_silent_corruption_partial", "C04_accepts_iff_representable", "C04_flat", "C04_condensed_counterexample", "encodeMessage_flat_bad", "encodeMessage_flat_unknown", "rawOfInt32_ok", "rawOfInt32_reject",
-                            "C04_struct_partial", "C04_struct_never_foreign", "C04_struct_accepts_iff", "encodeMessage_struct_cases", "struct_roundtrip_fill"]]
+                            "C04_struct_partial", "C04_struct_never_foreign", "C04_struct_accepts_iff", "encodeMessage_struct_cases", "struct_roundtrip_fill",
+                            # nested compositional tier (structures o fields o multiplexers, descriptions without baked-in values)
+                            "C04_nested_partial", "C04_nested_never_foreign", "C04_nested_accepts_iff", "encodeMessage_nested_cases", "DescribedP.ok",
+                            "DDesc.struct_ok", "DDesc.staticField_ok", "DDesc.dynLenField_ok", "DDesc.eopField_ok", "DDesc.mux_ok", "PDesc.ofValue_ok"]]
 RULE = ("direct oracle, model-free: for every description (odxgen, well-formed, loaded through the XML loader) x every assignment of the "
         "control stream (valid values) and of the malformed stream (harness/malformed.py: one damaged site per mutant - boundary +-1 of the "
         "representable range, wrong Python type, over-/under-long and empty strings/byte fields, non-encodable characters, terminators inside "
@@ -26,8 +31,14 @@ RULE = ("direct oracle, model-free: for every description (odxgen, well-formed, 
         "wrong type): encode; accepted => decode(PDU) == expect(value) and the PDU is consumed; rejected => isinstance(e, OdxError). "
         "Families: corpus of past defects; exhaustive integer sweep -(2^n)-2..2^n+2 for every bit length n <= 8 (quick) / 12 (thorough) x "
         "every integer encoding x both byte orders; random composites x mutants; atomic emplace/extract malformed stream (strict and "
-        "lenient). distinct = distinct (description, value, trigger); non-trivial = a malformed or boundary value reached the encoder "
-        "(control cases are trivial)")
+        "lenient); non-condensed BIT-MASK on every maskable base type x encoding x byte order x bit length x mask shape; the other diag "
+        "coded type classes (MIN-MAX-LENGTH, LEADING-LENGTH-INFO, PARAM-LENGTH-INFO) x base type. Call histories (round 6): the same oracle "
+        "on the same objects after other calls - every mutant (of x / the whole assignment) as the first call on untouched objects followed "
+        "by the valid assignment (enumerated families; 3/6 mutants of different kinds per value in random composites), every ordered pair of "
+        "a 7-value small scope (masked and other-DCT families), the valid assignment again after all its mutants; the outcome of one "
+        "request (accepted + PDU | error class) must not depend on the history (a difference is a broken model correspondence: the model is "
+        "a function of description and value). distinct = distinct (description, value, trigger, history); non-trivial = a malformed or "
+        "boundary value reached the encoder, or a call with a non-empty history (first-call control cases are trivial)")
 TRUSTED = ["expectation `malformed.expect` (requested values completed with defaults/constants/derived keys, quantised by the compu method "
            "and binary32) is written from the ODX semantics, independent of the odxtools source; fallback `embeds` when no expectation exists",
            "descriptions are loaded through the real XML loader; exception classes via codec_oracles.err_class"]
@@ -43,7 +54,13 @@ ASSUMPTIONS = ["'the library's own error type' = any OdxError subclass (EncodeEr
                "Values supplied for CODED-CONST/PHYS-CONST/NRC-CONST must be rejected unless equal",
                "NRC-CONST overlay parameters (harness device to set the NRC) are only given listed codes",
                "ENV-DATA-DESC: values for environments that do not apply to the DTC are ignored by design (allow_unknown_parameters)",
-               "an OdxWarning (overlap) during encode excuses the case (counted)"]
+               "an OdxWarning (overlap) during encode excuses the case (counted)",
+               "untouched implementations of a description for the call-history schedules are unpickled images of the loaded object graph taken "
+               "before its first call (every 16th description: loaded again through the XML loader); state kept outside the object graph "
+               "(module globals) is not reset between schedules",
+               "descriptions with SYSTEM parameters (TIMESTAMP ...): the PDU depends on the moment of the call; outcomes of two histories are "
+               "compared on acceptance / error class only",
+               "BIT-MASK with one-bits beyond BIT-LENGTH is a malformed description (outside the envelope)"]
 
 logging.getLogger("odxtools").setLevel(logging.CRITICAL)
 OK_REJECT = ("encode", "decode", "mismatch", "odx")
@@ -200,6 +217,7 @@ class Run:
         self.rep = O.Reporter(ctx, max_shrinks=10)
         M.guarded(ctx)
         self.corr = M.CoarseCorrespondence(ctx)
+        self.clock, self.keep = {}, []      # id(description) -> has SYSTEM parameters (descriptions kept alive: ids stay unique)
 
     def case(self, comp, obj, value, trig, family, tag, fixed_features=None, what=None, shrink=True, corr=True):
         ctx = self.ctx
@@ -232,6 +250,206 @@ class Run:
                             failing=c04_failing(r[0], r[1], kind) if shrink else None, extra_features=r[3],
                             fixed_features=fixed_features, what=what or f"{r[0]}: {r[1]} for mutant '{tag}'")
         return r, enc
+
+    # -------------------------------------------------------------- call histories
+    def after(self, comp, obj, history, value, trig, family, tag, refs=None, shrink=True, corr=True, done=False):
+        """the statement is about *every* value assignment, whatever the objects of the description were used for before: `obj` is a freshly
+        loaded (or otherwise differently used) implementation of `comp`; the assignments of `history` [(tag, value)] are encoded first
+        (they are judged by the direct oracle where they are the last call), then `value` is judged like any first call.
+        `refs`: repr(value) -> outcome of the same request on other objects with another history; the outcome of a request must not depend
+        on the history (the model `encodeMessage` the theorems speak about is a function of description and value)"""
+        ctx = self.ctx
+        refs = refs or {}
+        outcomes = []
+        # (SYSTEM parameters take the time of the call when no value is supplied: the PDU legitimately depends on the moment of the call;
+        #  for these descriptions only acceptance / error class are compared between two histories)
+        clock = self.clock.get(id(comp))
+        if clock is None:
+            try:
+                clock = self.clock[id(comp)] = any(p.type == "system" for p, _d in D.walk_params(comp.params))
+                self.keep.append(comp)
+            except Exception:  # noqa
+                clock = True
+        for _htag, hv in ([] if done else history):      # done: `obj` has already seen these calls (in this order)
+            outcomes.append((hv, O.impl_encode(obj, hv, trig)))         # (never raises: every exception is turned into a Res)
+        r, enc, dec = c04_eval(comp, obj, value, trig)
+        outcomes.append((value, enc))
+        ctx.case((comp_key(comp), vkey(value), trig, "after", ("primary-run", len(history)) if done else tuple(vkey(hv) for _t, hv in history)),
+                 nontrivial=True)
+        ctx.histo("history_last_call", "control" if tag == "control" else "mutant")
+        ctx.histo("history_outcome", "accepted" if enc.ok else "rejected:" + enc.status.split(":")[0])
+        for n, (hv, e) in enumerate(outcomes):
+            ref = refs.get(vkey(hv))
+            if ref is None:
+                continue
+            ctx.count("history_outcomes_compared")
+            if not same_outcome(ref, e, pdu=not clock):
+                ctx.count("history_dependent_outcomes")
+                ctx.disagree("history|" + family, {"desc": comp_key(comp)[:2000], "value": vkey(hv)[:400], "call_number": n + (len(history) if done else 0),
+                                                  "earlier_calls_on_the_same_objects": [vkey(x)[:200] for _t, x in history][:n if not done else None][-12:]},
+                             "the same request with another call history: " + outcome_str(ref), outcome_str(e))
+        if corr and refs.get(vkey(value)) is None and not has_unfaithful_sexp(value):
+            # the model is a pure function of (description, value): the same line must get the same reply after any history (where the
+            # outcome was compared with the outcome of a call that went to the model already, that comparison is the tie)
+            try:
+                self.corr.add(family + "|after-history", comp, sexp.encode_line(comp, value, trig), O.reply_encode(enc))
+            except Exception:  # noqa  (value form without s-expression)
+                pass
+        if r:
+            kinds = [tag_kind(t) for t, _ in history]
+            try:
+                hj = [V.jsonable(hv) for _t, hv in history]
+            except Exception:  # noqa
+                hj = None
+            ref = refs.get(vkey(value))
+            detail = {**r[2], "mutant": tag, "history": hj, "history_mutants": [t for t, _ in history]}
+            self.rep.report(r[0], r[1], comp, value, trig, detail,
+                            failing=c04_failing_after(r[0], r[1], kinds, tag_kind(tag)) if shrink else None,
+                            extra_features=list(r[3]) + ["after-history"],
+                            what=f"{r[0]}: {r[1]} for '{tag}' after the same objects encoded {[t for t, _ in history][-6:]} "
+                                 f"(the same request with another call history: {outcome_str(ref) if ref is not None else 'n/a'})")
+        return r, enc
+
+
+def comp_key(comp):
+    try:
+        return sexp.composite(comp)
+    except Exception:  # noqa
+        return comp.name
+
+
+def same_outcome(a, b, pdu=True):
+    """two encode outcomes of the same request are the same observable: accepted with the same PDU and warning flag, or rejected with the
+    same error class (messages are free)"""
+    if a.ok != b.ok:
+        return False
+    if a.ok:
+        return (a.pdu == b.pdu or not pdu) and bool(a.warns) == bool(b.warns)
+    return a.status == b.status
+
+
+def outcome_str(e):
+    return f"ok {e.pdu.hex()}{' (warning)' if e.warns else ''}" if e.ok else f"{e.status}: {(e.msg or '')[:80]}"
+
+
+def reloaded_objects(comp, k, chunk=48):
+    """k mutually independent, freshly loaded implementations of the description `comp` (each one has objects of its own, down to the DOPs and
+    diag coded types: whatever one of them remembers about its calls cannot reach another one)"""
+    out = []
+    for lo in range(0, k, chunk):
+        cs = []
+        for i in range(lo, min(k, lo + chunk)):
+            c = copy.deepcopy(comp)
+            c.name = f"{comp.name}h{i}"
+            cs.append(c)
+        L, err = O.safe_load(cs)
+        if L is None:
+            return out
+        try:
+            out.extend(L[c.name] for c in cs)
+        except Exception:  # noqa
+            return out
+    return out
+
+
+class Pristine:
+    """source of implementations of one description that no call has touched yet. Taken from the loaded objects *before* their first call:
+    a pickle image of the object graph, unpickled once per schedule (10 x cheaper than loading the document again); every 16th description
+    (and every description whose objects cannot be pickled) is loaded again through the XML loader instead"""
+    count = 0
+
+    def __init__(self, comp, obj):
+        Pristine.count += 1
+        self.comp, self.blob = comp, None
+        if Pristine.count % 16:
+            try:
+                self.blob = pickle.dumps(obj, protocol=pickle.HIGHEST_PROTOCOL)
+                pickle.loads(self.blob)
+            except Exception:  # noqa
+                self.blob = None
+
+    def make(self, k):
+        if self.blob is not None:
+            try:
+                return [pickle.loads(self.blob) for _ in range(k)]
+            except Exception:  # noqa
+                pass
+        return reloaded_objects(self.comp, k)
+
+
+def distinct_values(ms):
+    """mutants with pairwise different values (by repr)"""
+    seen, out = set(), []
+    for tag, mv in ms:
+        try:
+            k = repr(mv)
+        except Exception:  # noqa
+            k = str(id(mv))
+        if k not in seen:
+            seen.add(k)
+            out.append((tag, mv))
+    return out
+
+
+def histories(run, comp, pristine, trig, family, control, firsts, refs, pairs=(), shrink=True):
+    """call-history schedules on freshly loaded objects, one object per schedule:
+       mutant-first   [m, control]      for every m of `firsts`; the control value is judged by the direct oracle; both outcomes are compared with
+                                        the outcomes `refs` of the primary run (in which the control value is the first call)
+       ordered pairs  [a, b]            for every ordered pair of `pairs` (a, b: (tag, value)); b is judged; reference outcomes: each value as
+                                        the only call on objects of its own (judged as well)"""
+    ctx = run.ctx
+    pairs = list(pairs)
+    singles = [a for a in pairs if vkey(a[1]) not in refs]
+    plan = [([m], ("control", control)) for m in firsts] + [([a], b) for a in pairs for b in pairs if a is not b]
+    if not plan:
+        return
+    objs = pristine.make(len(singles) + len(plan))
+    if len(objs) < len(singles) + len(plan):
+        ctx.count("history_fresh_load_failed")
+        return
+    refs = dict(refs)
+    for (tag, a), obj in zip(singles, objs):
+        _r, e = run.case(comp, obj, a, trig, family, tag, shrink=shrink)
+        refs[vkey(a)] = e
+    for (hist, (tag, v)), obj in zip(plan, objs[len(singles):]):
+        run.after(comp, obj, hist, v, trig, family, tag, refs=refs, shrink=shrink)
+        ctx.histo("history_schedule", "ordered-pair" if any(hist[0] is a for a in pairs) else "mutant-first")
+        ctx.histo("history_first_call", tag_kind(hist[0][0]))
+
+
+def vkey(v):
+    try:
+        return repr(v)
+    except Exception:  # noqa
+        return str(id(v))
+
+
+def c04_failing_after(clause, observed, hist_kinds, kind, seeds=2, limit=120):
+    """shrinker predicate for a failure that needs a call history: on freshly loaded objects of the candidate, a mutant of each kind in
+    `hist_kinds` is encoded first, then a value of kind `kind` reproduces (clause, observed)"""
+    def f(cand):
+        for s in range(seeds):
+            rng = random.Random(s)
+            try:
+                v = V.gen_value(rng, cand)
+                t = V.gen_trigger(rng, cand)
+                ms = [("control", v)] + M.value_mutants(rng, cand, v, limit=limit)
+            except Exception:  # noqa
+                continue
+            firsts = [m for m in ms if tag_kind(m[0]) == hist_kinds[0]][:4] if hist_kinds else []
+            lasts = [m for m in ms if tag_kind(m[0]) == kind][:2]
+            for h in firsts:
+                for tag, mv in lasts:
+                    L, err = O.safe_load(cand)
+                    if L is None:
+                        return None
+                    obj = L[cand.name]
+                    O.impl_encode(obj, h[1], t)
+                    r, enc, dec = c04_eval(cand, obj, mv, t)
+                    if r and r[0] == clause and r[1] == observed:
+                        return (mv, t, (r[0], r[1], {**r[2], "mutant": tag, "history": [V.jsonable(h[1])], "history_mutants": [h[0]], "_extra": r[3]}))
+        return None
+    return f
 
 
 # ------------------------------------------------------------------ corpus
@@ -305,10 +523,21 @@ def corpus():
     # open known finding (decided for C08 by the builder of odxgen/codec_oracles): condensed bit mask
     cond = D.SimpleDop(D.Std("A_UINT32", 16, None, None, mask=0x0F0F, condensed=True), "A_UINT32")
     out.append(("condensed-bit-mask", rq(val("c", cond), val("y", u8())), {"c": 0x0A0B, "y": 1}, None, ["condensed-bit-mask"]))
+    # open known finding (round 6, found by the enumerated BIT-MASK family): BIT-MASK on a BCD-coded integer is applied twice, in two domains
+    for enc, bl, m, x in (("BCD-P", 12, 0x555, 68), ("BCD-UP", 16, 0x0555, 65)):
+        bcdm = D.SimpleDop(D.Std("A_UINT32", bl, enc, None, mask=m), "A_UINT32")
+        out.append((f"bcd-bit-mask-{enc}", rq(val("c", bcdm), val("y", u8())), {"c": x, "y": 1}, None, ["bcd-bit-mask"]))
     # open known finding: an item of a DYNAMIC-ENDMARKER-FIELD that starts with the termination value
     emf = D.EndMarkerField(255, u8(), D.Struct([val("a", u8()), val("b", u8())]))
     out.append(("end-marker-item-collision", D.Composite("RQ", "request", [D.sid(), val("f", emf)]),
                 {"f": [{"a": 1, "b": 2}, {"a": 255, "b": 3}, {"a": 4, "b": 5}]}, None, KNOWN_END_MARKER))
+    # open known finding (forced by the proof of C04_nested_partial: every item of a dynamic field must consume >= 1 byte): the field ENCODERS
+    # accept items that do not occupy data; the decoders (fixes fc2486c / 6869fd8) reject or drop them
+    empty = D.Struct([])
+    out.append(("field-item-consumes-nothing(dyn-length)", D.Composite("RQ", "request", [D.sid(0x10), val("df", D.DynLenField(1, 0, None, u8(), empty))]),
+                {"df": [{}]}, None, ["field-item-consumes-nothing"]))
+    out.append(("field-item-consumes-nothing(end-of-pdu)", D.Composite("RQ", "request", [D.sid(0x10), val("ef", D.EopField(empty))]),
+                {"ef": [{}]}, None, ["field-item-consumes-nothing"]))
     return out
 
 
@@ -347,6 +576,7 @@ def integer_sweep(run, maxbits):
         for n, bt, enc, c in chunk:
             obj = L[c.name]
             accepted = representable = 0
+            ref = {}
             for x in range(-(1 << n) - 2, (1 << n) + 3):
                 r, e = run.case(c, obj, {"x": x, "y": 0xA5}, None, "int-sweep", "value:int-sweep", shrink=False, corr=(ctx.tier == "quick" or n <= 6 or x % 7 == 0))
                 rep = V.raw_of_int(bt, enc if enc != "NONE" else None, n, x) is not None
@@ -357,11 +587,18 @@ def integer_sweep(run, maxbits):
                 if rep and not e.ok:
                     ctx.count("sweep_false_rejection")
                     ctx.sample({"false-rejection": [bt, enc, n, x, e.msg]}, limit=16)
+                if x in (0, 1):
+                    ref[vkey({"x": x, "y": 0xA5})] = e
+            # (the sweep starts with unrepresentable values: every accepted value is encoded after rejected ones; now the other direction:
+            #  accepted values again after the rejections above 2^n, on the same objects)
+            hist = [("value:int-sweep", {"x": (1 << n) + 2, "y": 0xA5})]
+            for x in (0, 1):
+                run.after(c, obj, hist, {"x": x, "y": 0xA5}, None, "int-sweep", "control", refs=ref, shrink=False, corr=False, done=True)
             ctx.histo("sweep_bit_length", n)
         run.corr.flush()
 
 
-def run_doc(run, comp, family, rng, n_values, mutant_limit):
+def run_doc(run, comp, family, rng, n_values, mutant_limit, n_first=0):
     ctx = run.ctx
     L, err = O.safe_load(comp)
     if L is None:
@@ -369,6 +606,7 @@ def run_doc(run, comp, family, rng, n_values, mutant_limit):
         return
     ctx.count("documents_loaded")
     obj = L[comp.name]
+    pristine = Pristine(comp, obj) if n_first else None
     O.record_features(ctx, comp)
     ctx.histo("family", family)
     for k in range(n_values):
@@ -388,10 +626,121 @@ def run_doc(run, comp, family, rng, n_values, mutant_limit):
         except Exception as e:  # noqa
             ctx.count("mutant_generation_error:" + type(e).__name__)
             continue
+        ref = {vkey(v): enc}
         for tag, mv in ms:
-            run.case(comp, obj, mv, trig, family, tag)
+            _r, e = run.case(comp, obj, mv, trig, family, tag)
+            ref.setdefault(vkey(mv), e)
         for tag, t2 in M.trigger_mutants(comp, trig):
             run.case(comp, obj, v, t2, family, tag)
+        # call histories: the valid assignment again, after all its mutants, on the same objects ...
+        run.after(comp, obj, [("control", v)] + ms, v, trig, family, "control", refs=ref, done=True)
+        # ... and as the second call on freshly loaded objects whose first call is a mutant (n_first of them, of different kinds)
+        if n_first:
+            hr = ctx.sub_rng("history", comp_key(comp), k)
+            by = {}
+            for m in distinct_values(ms):
+                if vkey(m[1]) != vkey(v):
+                    by.setdefault(tag_kind(m[0]), []).append(m)
+            kinds = sorted(by)
+            hr.shuffle(kinds)
+            histories(run, comp, pristine, trig, family, v, [hr.choice(by[kd]) for kd in kinds[:n_first]], ref)
+
+
+def enum_doc(run, c, obj, v, ms, family, pairs=()):
+    """one enumerated description: control, every mutant (as before: on the same objects, control first); then the call histories:
+    control again after all mutants on the same objects; every mutant as the first call on freshly loaded objects, followed by the control value;
+    every ordered pair of `pairs` on freshly loaded objects"""
+    ref = {}
+    pristine = Pristine(c, obj)
+    for tag, mv in [("control", v)] + ms:
+        _r, e = run.case(c, obj, mv, None, family, tag, shrink=False)
+        ref.setdefault(vkey(mv), e)
+    run.after(c, obj, [("control", v)] + ms, v, None, family, "control", refs=ref, shrink=False, done=True)
+    # (first calls: the mutants of the whole assignment and of x; y is the same u8 object in every description of these families)
+    firsts = [m for m in distinct_values(ms) if not isinstance(m[1], dict) or "x" not in m[1] or vkey(m[1]["x"]) != vkey(v["x"])]
+    histories(run, c, pristine, None, family, v, firsts, ref, pairs=pairs, shrink=False)
+
+
+def enum_std_masked(big):
+    """every maskable base type (A_BYTEFIELD, A_UINT32, A_INT32) x legal encoding x byte order x bit length x shape of a non-condensed BIT-MASK
+    whose one-bits lie inside the object (all ones; lowest bit only; highest bit only; alternating bits; high nibble cleared), inside
+    `[sid, x, y:u8]` (y pins the cursor after x). Not in the family: BCD-coded integers with a BIT-MASK (open known finding
+    `bcd-bit-mask`, corpus witnesses); masks with one-bits beyond BIT-LENGTH (malformed description)"""
+    n = 0
+    for bt in ("A_BYTEFIELD", "A_UINT32", "A_INT32"):
+        if bt == "A_BYTEFIELD":
+            lens = [8, 16, 24, 40] if not big else [8, 16, 24, 32, 40, 64, 72]
+        else:
+            lens = [1, 8, 12, 32, 64] if not big else [1, 2, 3, 4, 7, 8, 9, 12, 15, 16, 17, 24, 31, 32, 33, 48, 63, 64]
+        for enc in D.LEGAL_ENCODINGS[bt]:
+            if enc in ("BCD-P", "BCD-UP") and bt != "A_BYTEFIELD":
+                continue
+            for hl in (True, False):
+                for bl in lens:
+                    full = (1 << bl) - 1
+                    masks = []
+                    for m in (full, 1, 1 << (bl - 1), int("55" * 9, 16) & full, full >> 4):
+                        if m and m not in masks:
+                            masks.append(m)
+                    if not big and len(masks) > 2:
+                        # quick tier: all ones + one more shape per description point, cyclically (every shape is met with every base type
+                        # and bit length over the encodings x byte orders)
+                        masks = [masks[0], masks[1 + n % (len(masks) - 1)]]
+                    for m in masks:
+                        n += 1
+                        bp = 0 if bt == "A_BYTEFIELD" or n % 2 else 3
+                        dop = D.SimpleDop(D.Std(bt, bl, enc, hl, m), bt)
+                        yield D.Composite(f"K{n}", "request", [D.sid(), D.value("x", dop, bitpos=bp or None), D.value("y", D.u8())])
+
+
+def small_scope_values(dop, v, w):
+    """a small set of assignments around the representability boundary of `x` (two valid ones with different content, one unit too short / too
+    long, empty, far too long resp. just outside the integer range on both sides and far outside, a wrong type): every ordered pair of them is a
+    call history"""
+    x = v["x"]
+    out = [("control", v), ("control", w)]
+    if isinstance(x, (bytes, bytearray)):
+        x = bytes(x)
+        cands = [("bytes-1", x[:-1]), ("bytes+1", x + b"\x5a"), ("bytes-empty", b""), ("bytes+many", x * 3 + b"\x01" * 9), ("type:int", 5)]
+    elif isinstance(x, str):
+        cands = [("str-1", x[:-1]), ("str+1", x + "Z"), ("str-empty", ""), ("str+many", x * 3 + "a" * 9), ("type:int", 5)]
+    else:
+        dct = dop.dct
+        if isinstance(dct, D.Std):
+            lo, hi = V.int_range(dct.bt, dct.enc if dct.enc in ("1C", "2C", "SM") else None, dct.bitlen)
+        else:
+            lo, hi = (0, 255) if dct.bt == "A_UINT32" else (-128, 127)
+        cands = [("int-boundary", lo - 1), ("int-boundary", hi + 1), ("int+2^70", 1 << 70), ("type:bytes", b"\x01\x02"), ("type:none", None)]
+    for tag, c in cands:
+        out.append(("value:" + tag, {**v, "x": c}))
+    res, seen = [], set()
+    for t, a in out:
+        if vkey(a) not in seen:
+            seen.add(vkey(a))
+            res.append((t, a))
+    return res
+
+
+def enum_other_dcts():
+    """the diag coded types with a length that depends on the value, every class x every base type they admit, value parameter `x`:
+    MIN-MAX-LENGTH (ZERO / HEX-FF followed by y:u8, END-OF-PDU last; without and with a maximum), LEADING-LENGTH-INFO (8 and 16 length bits),
+    PARAM-LENGTH-INFO (key k:u8 in front)"""
+    n = 0
+    for bt in ("A_BYTEFIELD", "A_ASCIISTRING", "A_UTF8STRING", "A_UNICODE2STRING"):
+        unit = 2 if bt == "A_UNICODE2STRING" else 1
+        for term in ("ZERO", "HEX-FF", "END-OF-PDU"):
+            for mn, mx in ((0, None), (unit, 4 * unit)):
+                n += 1
+                dop = D.SimpleDop(D.MinMax(bt, mn, mx, term, None, None if n % 2 else False), bt)
+                yield D.Composite(f"N{n}", "request", [D.sid(), D.value("x", dop)] + ([] if term == "END-OF-PDU" else [D.value("y", D.u8())]))
+        for bl in (8, 16):
+            n += 1
+            dop = D.SimpleDop(D.Leading(bt, bl, None, None if n % 2 else False), bt)
+            yield D.Composite(f"N{n}", "request", [D.sid(), D.value("x", dop), D.value("y", D.u8())])
+    for bt in ("A_BYTEFIELD", "A_ASCIISTRING", "A_UTF8STRING", "A_UNICODE2STRING", "A_UINT32", "A_INT32"):
+        n += 1
+        dop = D.SimpleDop(D.ParamLen(bt, "k", None, None if n % 2 else False), bt)
+        yield D.Composite(f"N{n}", "request", [D.sid(), D.length_key("k", D.u8()), D.value("x", dop), D.value("y", D.u8())])
 
 
 def atomic_family(ctx, drv, n):
@@ -484,6 +833,7 @@ def run(ctx):
     # (b) exhaustive integer sweep
     integer_sweep(run_, 12 if big else 8)
     # (c) boundary values up to 64 bits for every standard-length integer DOP
+    n_enum = 0
     bitlens = list(range(1, 65)) if big else sorted(set(V.BIAS_LENGTHS + [2, 4, 12, 24, 48] + rng.sample(range(1, 65), 4)))
     for comps in batches(G.enum_std_numeric(bitlens, bitposs=(0, 3) if not big else (0, 1, 5, 7)), 64):
         L, err = O.safe_load(comps)
@@ -493,8 +843,17 @@ def run(ctx):
         for c in comps:
             dop = c.params[1].dop
             ctx.histo("family", "enum-std-integer")
-            for x in M._int_bounds(dop):
-                run_.case(c, L[c.name], {"x": x, "y": 0x5A}, None, "enum-std-integer", "value:int-boundary", shrink=False, corr=(x % 3 == 0 or not big))
+            # (call histories: the candidates are tried in a different cyclic order on every description, so that every candidate is the
+            #  first call somewhere; the first one is tried again at the end: same outcome, judged again)
+            xs = M._int_bounds(dop)
+            n_enum += 1
+            xs = xs[n_enum % len(xs):] + xs[:n_enum % len(xs)]
+            first = None
+            for x in xs:
+                _r, e = run_.case(c, L[c.name], {"x": x, "y": 0x5A}, None, "enum-std-integer", "value:int-boundary", shrink=False, corr=(x % 3 == 0 or not big))
+                first = first or e
+            run_.after(c, L[c.name], [("value:int-boundary", {"x": x, "y": 0x5A}) for x in xs], {"x": xs[0], "y": 0x5A}, None, "enum-std-integer",
+                       "value:int-boundary", refs={vkey({"x": xs[0], "y": 0x5A}): first}, shrink=False, corr=False, done=True)
         run_.corr.flush()
     # (d) floats, strings, byte fields: every mutant
     for comps in batches(G.enum_std_other((0, 3)), 48):
@@ -509,8 +868,51 @@ def run(ctx):
                 v = {"x": V.gen_simple(vr, c.params[1].dop)[0], "y": 1}
             except V.Unsupported:
                 continue
-            for tag, mv in [("control", v)] + M.value_mutants(vr, c, v):
-                run_.case(c, L[c.name], mv, None, "enum-std-float-string-bytes", tag, shrink=False)
+            enum_doc(run_, c, L[c.name], v, M.value_mutants(vr, c, v), "enum-std-float-string-bytes")
+        run_.corr.flush()
+    # (d') BIT-MASK (not condensed) on every maskable base type: every mutant, every mutant as the first call, ordered pairs
+    for comps in batches(enum_std_masked(big), 48):
+        L, err = O.safe_load(comps)
+        if L is None:
+            ctx.count("documents_rejected_by_loader")
+            ctx.sample({"masked-rejected": err})
+            continue
+        vr = ctx.sub_rng("masked")
+        for c in comps:
+            ctx.histo("family", "enum-std-masked")
+            O.record_features(ctx, c)
+            dop = c.params[1].dop
+            try:
+                v = {"x": V.gen_simple(vr, dop)[0], "y": 1}
+                w = {"x": V.gen_simple(vr, dop)[0], "y": 2}
+            except V.Unsupported:
+                ctx.count("value_generation_unsupported")
+                continue
+            enum_doc(run_, c, L[c.name], v, M.value_mutants(vr, c, v), "enum-std-masked", pairs=small_scope_values(dop, v, w))
+        run_.corr.flush()
+    # (d") the other diag coded type classes (the coded length depends on the value): every mutant, every mutant of x as the first call,
+    #      ordered pairs
+    for comps in batches(enum_other_dcts(), 48):
+        L, err = O.safe_load(comps)
+        if L is None:
+            ctx.count("documents_rejected_by_loader")
+            ctx.sample({"other-dcts-rejected": err})
+            continue
+        vr = ctx.sub_rng("other-dcts")
+        for c in comps:
+            ctx.histo("family", "enum-dct-history")
+            O.record_features(ctx, c)
+            dop = next(p.dop for p in c.params if p.name == "x")
+            try:
+                v, w = V.gen_value(vr, c), V.gen_value(vr, c)
+                for _ in range(8):
+                    if vkey(w["x"]) != vkey(v["x"]) and len(w["x"] if not isinstance(w["x"], int) else "") != len(v["x"] if not isinstance(v["x"], int) else "-"):
+                        break
+                    w = V.gen_value(vr, c)          # (a second valid value, of another length where there is one)
+            except Exception:  # noqa
+                ctx.count("value_generation_unsupported")
+                continue
+            enum_doc(run_, c, L[c.name], v, M.value_mutants(vr, c, v), "enum-dct-history", pairs=small_scope_values(dop, v, w))
         run_.corr.flush()
     # (e) random composites x mutants
     n_docs = 9000 if big else 1300
@@ -521,7 +923,7 @@ def run(ctx):
         except Exception as e:  # noqa
             ctx.count("generator_error:" + type(e).__name__)
             continue
-        run_doc(run_, c, "random-" + prof.tier, rng, 1 if i % 3 else 2, 60 if not big else 90)
+        run_doc(run_, c, "random-" + prof.tier, rng, 1 if i % 3 else 2, 60 if not big else 90, n_first=3 if not big else 6)
         if i % 100 == 99:
             run_.corr.flush()
     run_.corr.flush()
@@ -540,5 +942,7 @@ def replay(ctx, data):
         return False
     v = V.from_jsonable(w.get("value"))
     trig = bytes.fromhex(w["trig"]) if w.get("trig") else None
+    for hv in w.get("history") or []:          # the calls the same objects saw before (call-history schedules)
+        O.impl_encode(L[c.name], V.from_jsonable(hv), trig)
     r, enc, dec = c04_eval(c, L[c.name], v, trig)
     return r is None
